@@ -518,7 +518,7 @@ def property_values_check(prop):
         if val is None:
             return
 
-        if dtype.endswith("-tuple"):
+        if dtype.lower().endswith("-tuple"):
             tuple_len = int(dtype[:-6])
             if len(val) != tuple_len:
                 msg = "Tuple of length %s not consistent with dtype %s!" % (len(val), dtype)
